@@ -44,7 +44,7 @@ manifest = {
     "setup_cmd": "./setup.sh",
     "hooks": {
         "guard": "verif",
-        "enable": "go1.26 build -tags verif (harness module github.com/go-json-experiment/json/verifh, replace => /repo); hook files: verif_hooks.go, jsontext/verif_hooks.go, internal/jsonwire/verif_hooks.go",
+        "enable": "go1.26 build -tags verif (harness module github.com/go-json-experiment/json/verifh, replace => /repo); hook files: verif_hooks.go, verif_hooks_pools.go, jsontext/verif_hooks.go, jsontext/verif_hooks_pools.go, internal/jsonwire/verif_hooks.go",
         "baseline_off_cmd": "cd /repo && GOFLAGS=-mod=mod GOPROXY=off GOSUMDB=off GOTOOLCHAIN=local go1.26 test -json -vet=off -count=1 -timeout 25m ./...",
         "source_commits": hook_shas,
         "add_only": True,
